@@ -24,6 +24,7 @@ ASSUMPTIONS = [
 ]
 MINIMUM = {"C12.groups_judged": 2000, "C12.undefined_label_judged": 100, "C12.noninterference_judged": 200}
 BUDGET_S = {"quick": 240, "thorough": 2400}
+SHARD_PYFLAGS = {3: ["-O"], 11: ["-O"]}  # the rejection of undefined labels must not depend on assert statements being compiled in
 
 
 def set_partitions(items, max_blocks):
@@ -105,7 +106,8 @@ def run_defs(ctx, gdef, k, idx, it):
         "global": ["DSC", "IOU", "ASSD", "RVD"],
     }
     has_single = any(g["single"] for g in gdef.values())
-    if not has_single and idx % 4 == 0:
+    if idx % 4 == 0:
+        # with a decision metric, the single-instance groups themselves are not judged (rule 6), the others are
         cfg.update(dm="IOU", dt=0.6)
     if idx % 3 == 2 and k <= 6:
         # label values that are congruent modulo 256 / 65536 to each other, in a wider dtype
@@ -136,6 +138,9 @@ def run_defs(ctx, gdef, k, idx, it):
             continue
         p2, r2 = restrict(pred, g["labels"], g["kind"] == "merge"), restrict(refa, g["labels"], g["kind"] == "merge")
         kind = "single" if g["single"] else g["kind"]
+        if g["single"] and cfg.get("dm"):
+            ctx.count("C12.skipped_single_instance_with_decision_metric")
+            continue
         if g["single"] and it != "MATCHED_INSTANCE":
             ucfg = {"input": "MATCHED_INSTANCE", "matcher": None, "global": cfg["global"]}
             if p2.dtype.kind != "u":
